@@ -130,6 +130,10 @@ type SpecFun struct {
 	Name   string
 	Args   []string
 	Result string
+	// Reads: for a heap-reading function (`hfun f(S...) R reads <heap> <smt sort of the heap>`), the heap whose
+	// current value is passed as the first SMT argument; "" for a pure function
+	Reads     string
+	ReadsSort string
 }
 
 type Spec struct {
@@ -460,8 +464,23 @@ func (cs *ContractSet) parseSpecFile(file string) error {
 				return fmt.Errorf("%s:%d: opaque <gotype> <sort>", file, n)
 			}
 			sp.Opaque[f[0]] = f[1]
-		case "fun":
+		case "fun", "hfun":
 			// fun name(S1, S2) R
+			// hfun name(S1, S2) R reads <heap> <sort>: the value also depends on the named heap as it is in the
+			// state the function is mentioned in (old(...) reads the entry heap)
+			reads, readsSort := "", ""
+			if word == "hfun" {
+				k := strings.Index(rest, " reads ")
+				if k < 0 {
+					return fmt.Errorf("%s:%d: hfun needs `reads <heap> <sort>`", file, n)
+				}
+				f := strings.SplitN(strings.TrimSpace(rest[k+7:]), " ", 2)
+				if len(f) != 2 {
+					return fmt.Errorf("%s:%d: hfun needs `reads <heap> <sort>`", file, n)
+				}
+				reads, readsSort = f[0], strings.TrimSpace(f[1])
+				rest = strings.TrimSpace(rest[:k])
+			}
 			i := strings.Index(rest, "(")
 			j := -1
 			depth := 0
@@ -481,6 +500,7 @@ func (cs *ContractSet) parseSpecFile(file string) error {
 			}
 			sf := &SpecFun{Name: strings.TrimSpace(rest[:i]), Result: strings.TrimSpace(rest[j+1:])}
 			sf.Args = splitTop(rest[i+1 : j])
+			sf.Reads, sf.ReadsSort = reads, readsSort
 			sp.Funs[sf.Name] = sf
 			sp.FunOrder = append(sp.FunOrder, sf.Name)
 		case "def":
